@@ -89,6 +89,22 @@ def observe(region, lons, lats, numpy):
             idx[i] = -1 if isinstance(ri, Raised) else int(ri[0])
     else:
         idx[inside] = numpy.asarray(r, dtype=numpy.int64)
+    # the same coordinates held in the other byte order (the field type of binary catalog formats): same values, so the
+    # same answers; a point answered differently is reported as index -3, which no specification state explains
+    blons, blats = lons.astype(lons.dtype.newbyteorder()), lats.astype(lats.dtype.newbyteorder())
+    m2 = guarded(region.get_masked, blons, blats)
+    if isinstance(m2, Raised):
+        return m2
+    differs = numpy.asarray(m2, dtype=bool) != masked
+    if inside.size and not isinstance(r, Raised):
+        r2 = guarded(region.get_index_of, blons[inside], blats[inside])
+        if isinstance(r2, Raised):
+            for i in inside:
+                ri = guarded(region.get_index_of, blons[i:i + 1], blats[i:i + 1])
+                differs[i] |= isinstance(ri, Raised) or int(ri[0]) != idx[i]
+        else:
+            differs[inside] |= numpy.asarray(r2, dtype=numpy.int64) != idx[inside]
+    idx[differs] = -3
     # points the mask calls outside: the index lookup must raise ValueError for each (sampled individually)
     outside = numpy.where(masked)[0]
     for i in outside[:: max(1, outside.size // 40)]:
